@@ -4,6 +4,7 @@
 set -e
 cd "$(dirname "$0")"
 mkdir -p work evidence
+python3 tools/gen.py
 export CARGO_NET_OFFLINE=true
 (cd harness && cargo build --offline --bins)
 if [ -x harness/target/debug/extract ]; then harness/target/debug/extract lean/Gen all; fi
